@@ -10,7 +10,10 @@ for a in sys.argv[1:]:
         k, v = a.split("=", 1); env[k] = v
     else:
         units.append(a)
-res, meta = core.run_cases([{"id": "p", "units": units, "timeout_ms": 30000}], env=env, shards=1)
+case = {"id": "p", "units": units, "timeout_ms": 30000}
+if env.pop("MODULE", None):
+    case["as_module"] = True
+res, meta = core.run_cases([case], env=env, shards=1)
 r = res.get("p")
 if r is None:
     print(meta); sys.exit(1)
